@@ -59,6 +59,7 @@ type Ctx struct {
 	incomplete []string
 	notes      map[string]any
 	expired    atomic.Bool
+	final      atomic.Bool // set before the last write; a result file without it is a partial snapshot
 }
 
 // Main runs a harness body under a Ctx and writes the result file.
@@ -84,6 +85,22 @@ func Main(t *testing.T, prop string, run func(c *Ctx)) {
 		budget, _ = strconv.ParseFloat(s, 64)
 	}
 	c.deadline = c.start.Add(time.Duration(budget * float64(time.Second)))
+	// Results are also written periodically, so that a run killed from outside (hard time limit, a
+	// hang in an uninterruptible place) still leaves what it found so far.
+	stopTick := make(chan struct{})
+	if c.out != "" {
+		go func() {
+			for {
+				select {
+				case <-stopTick:
+					return
+				case <-time.After(10 * time.Second):
+					c.write()
+				}
+			}
+		}()
+	}
+	defer close(stopTick)
 	func() {
 		defer func() {
 			if r := recover(); r != nil {
@@ -95,6 +112,7 @@ func Main(t *testing.T, prop string, run func(c *Ctx)) {
 		}()
 		run(c)
 	}()
+	c.final.Store(true)
 	c.write()
 }
 
@@ -259,15 +277,52 @@ func (c *Ctx) LoadReplay(v any) error {
 
 // Each runs f(i) for i in [0,n) on the worker pool, skipping items of other shards and stopping
 // when the budget expires. It returns the number of items completed and whether all were.
+// HangLimit is how long a single work item may run before it is suspected to hang. Items normally
+// take milliseconds; the limit is generous so that a loaded machine cannot trip it. A suspected
+// hang is re-executed once on a fresh goroutine; only if that does not finish within the limit
+// either it is reported as a violation of class "hang" (an API call that never returns), otherwise
+// the run is marked incomplete.
+var HangLimit = 240 * time.Second
+
+// ItemCase is the replay artefact of a work item identified only by its index in a named plan
+// (used for panics and hangs, where the harness did not get to build its own case).
+type ItemCase struct {
+	Plan  string `json:"plan"`
+	Index int    `json:"index"`
+}
+
+// Each runs f(i) for i in [0,n) on the worker pool, skipping items of other shards and stopping
+// when the budget expires. It returns the number of items completed and whether all were. A panic
+// on the worker goroutine is recorded as a violation of class "panic" (with the item); an item that
+// does not return is handled as described at HangLimit.
 func (c *Ctx) Each(n int, f func(i int)) (done int64, complete bool) {
+	return c.EachNamed("", n, f)
+}
+
+func (c *Ctx) EachNamed(plan string, n int, f func(i int)) (done int64, complete bool) {
 	var next atomic.Int64
 	var cnt atomic.Int64
-	var wg sync.WaitGroup
 	var stopped atomic.Bool
-	for w := 0; w < c.Workers(); w++ {
-		wg.Add(1)
+	nw := c.Workers()
+	type wstate struct {
+		item  atomic.Int64 // current item + 1, 0 = idle
+		since atomic.Int64 // unix nanos
+		fin   atomic.Bool
+	}
+	ws := make([]*wstate, nw)
+	safe := func(i int) {
+		defer func() {
+			if r := recover(); r != nil {
+				c.Violation("panic", fmt.Sprintf("plan %q item %d: panic: %v\n%s", plan, i, r, debug.Stack()), ItemCase{plan, i})
+			}
+		}()
+		f(i)
+	}
+	for w := 0; w < nw; w++ {
+		st := &wstate{}
+		ws[w] = st
 		go func() {
-			defer wg.Done()
+			defer st.fin.Store(true)
 			for {
 				i := int(next.Add(1) - 1)
 				if i >= n {
@@ -280,12 +335,49 @@ func (c *Ctx) Each(n int, f func(i int)) (done int64, complete bool) {
 					stopped.Store(true)
 					return
 				}
-				f(i)
+				st.since.Store(realNow().UnixNano())
+				st.item.Store(int64(i) + 1)
+				safe(i)
+				st.item.Store(0)
 				cnt.Add(1)
 			}
 		}()
 	}
-	wg.Wait()
+	// monitor: wait for the workers; abandon workers stuck in one item beyond HangLimit
+	hung := map[int]bool{}
+	for {
+		allDone := true
+		for _, st := range ws {
+			if st.fin.Load() {
+				continue
+			}
+			it := st.item.Load()
+			if it != 0 && realNow().Sub(time.Unix(0, st.since.Load())) > HangLimit {
+				if !hung[int(it-1)] {
+					hung[int(it-1)] = true
+					i := int(it - 1)
+					// confirm on a fresh goroutine before believing it
+					ch := make(chan struct{})
+					go func() { safe(i); close(ch) }()
+					select {
+					case <-ch:
+						c.Incomplete(fmt.Sprintf("plan %q item %d exceeded %v once but finished when re-executed (machine load?)", plan, i, HangLimit))
+					case <-time.After(HangLimit):
+						c.Violation("hang", fmt.Sprintf("plan %q item %d: the history did not finish within %v, twice (an operation never returns)", plan, i, HangLimit), ItemCase{plan, i})
+					}
+				}
+				continue // abandoned
+			}
+			allDone = false
+		}
+		if allDone {
+			break
+		}
+		time.Sleep(20 * time.Millisecond)
+	}
+	if len(hung) > 0 {
+		stopped.Store(true)
+	}
 	return cnt.Load(), !stopped.Load()
 }
 
@@ -309,6 +401,7 @@ func (c *Ctx) write() {
 		"incomplete":  c.incomplete,
 		"notes":       c.notes,
 		"wall_s":      realNow().Sub(c.start).Seconds(),
+		"final":       c.final.Load(),
 	}
 	if c.out == "" {
 		b, _ := json.MarshalIndent(res, "", " ")
@@ -368,6 +461,7 @@ func (c *Ctx) BudgetSeconds() float64 {
 // WriteAndExit writes the result file and exits the process; used by harnesses that cannot unwind
 // (e.g. goroutines parked inside a synctest bubble).
 func (c *Ctx) WriteAndExit() {
+	c.final.Store(true)
 	c.write()
 	os.Exit(0)
 }
